@@ -109,7 +109,7 @@ class Evaluator:
         return None
 
 
-def explore(fn, init, transfer=None, evalcond=None, refine=None, max_states=200000):
+def explore(fn, init, transfer=None, evalcond=None, refine=None, max_states=200000, edge_filter=None):
     """Exhaustive exploration.
 
     transfer(fn, nid, state) -> new state (or the same)            applied to each block element
@@ -172,6 +172,8 @@ def explore(fn, init, transfer=None, evalcond=None, refine=None, max_states=2000
         else:
             choices = [(i, s, None) for i, s in enumerate(succs) if s is not None]
         for i, s, pol in choices:
+            if edge_filter and not edge_filter(fn, bid, i, st):
+                continue
             st2 = st
             if refine and pol is not None and t and 'cond' in t:
                 st2 = refine(fn, t['cond'], pol, st)
